@@ -738,7 +738,8 @@ class BacktrackingOr(ValuePattern):
             [v.clone(node_map) for v in self._values],
             self.name,
             self._tag_var,
-            self._tag_values,
+            # Without a tag variable the tag values are the default ones (see __init__)
+            self._tag_values if self._tag_var is not None else None,
         )
 
 
